@@ -820,9 +820,24 @@ def make_history(rng, quick, nops=None):
                         dirty = False
                     hist.append(("loadx", nv))
                     hist.append(("check",))
+                    # set a variable BACK to the value it had before the load (written through Var.value while the Python-side
+                    # `_value` still holds that old value): the assignment must reach the evaluator all the same
+                    back = list(nv)
+                    cand = [k for k in range(NV) if nv[k] != vv[k]]
+                    rng.shuffle(cand)
+                    moved = False
+                    for k in cand[:2]:
+                        t = list(back)
+                        t[k] = vv[k]
+                        if rng.random() < 0.8 and live_ok(live, shared, t, pv):
+                            back = t
+                            hist.append(("setv", k, vv[k], "back-to-value-before-load"))
+                            moved = True
+                    if moved:
+                        hist.append(("check",))
                     for i in range(NV):
-                        hist.append(("setv", i, nv[i], "value"))
-                    vv = nv
+                        hist.append(("setv", i, back[i], "value"))
+                    vv = back
                     break
         else:
             if dirty and rng.random() < 0.9:
